@@ -4,6 +4,8 @@ import (
 	"fmt"
 	"go/types"
 	"strings"
+
+	"golang.org/x/tools/go/ssa"
 )
 
 func init() {
@@ -47,4 +49,73 @@ func init() {
 		}
 		return boolVal(eq(sx("ref", loc(a[0])), sx("ref", loc(a[1]))))
 	}
+}
+
+func init() {
+	// bstr(b): the content of byte slice b as a mathematical byte string (sort Str). It is an
+	// uninterpreted function of the byte heap and the slice value; its length is tied to len(b).
+	specFuncs["bstr"] = func(sc *Scope, a []Val) Val {
+		return Val{T: sc.x.bstrOf(sc.st, a[0].T), Ty: types.Typ[types.String]}
+	}
+	// slen(s): length of a mathematical byte string, as an int
+	specFuncs["slen"] = func(sc *Scope, a []Val) Val {
+		return Val{T: sx("s_len", a[0].T), Ty: types.Typ[types.Int]}
+	}
+}
+
+func (x *Exec) bstrOf(st *State, s string) string {
+	c := x.c
+	bs := c.sortOf(types.Typ[types.Uint8])
+	c.decl("uf:bstr", fmt.Sprintf("(declare-fun bstr ((Array Loc %s) Slice) Str)", bs))
+	t := sx("bstr", x.get(st, "H:"+bs), s)
+	c.assume(eq(sx("s_len", t), sx("sl_len", s)))
+	return t
+}
+
+func instrIndex(b *ssa.BasicBlock, in ssa.Instruction) int {
+	for i, x := range b.Instrs {
+		if x == in {
+			return i
+		}
+	}
+	return -1
+}
+
+func domDepth(b *ssa.BasicBlock) int {
+	d := 0
+	for b.Idom() != nil {
+		b = b.Idom()
+		d++
+	}
+	return d
+}
+
+func (x *Exec) timeType() types.Type {
+	for _, p := range x.w.Prog.AllPackages() {
+		if p.Pkg.Path() == "time" {
+			if o := p.Pkg.Scope().Lookup("Time"); o != nil {
+				return o.Type()
+			}
+		}
+	}
+	return nil
+}
+
+func init() {
+	// scat(a, b): concatenation of mathematical byte strings
+	specFuncs["scat"] = func(sc *Scope, a []Val) Val {
+		return Val{T: sc.x.scat(a[0].T, a[1].T), Ty: types.Typ[types.String]}
+	}
+}
+
+func (x *Exec) scat(a, b string) string {
+	c := x.c
+	c.decl("uf:s_cat", fmt.Sprintf("(declare-fun s_cat (Str Str) Str)"))
+	t := sx("s_cat", a, b)
+	if c.Int {
+		c.assume(eq(sx("s_len", t), sx("+", sx("s_len", a), sx("s_len", b))))
+	} else {
+		c.assume(eq(sx("s_len", t), sx("bvadd", sx("s_len", a), sx("s_len", b))))
+	}
+	return t
 }
